@@ -1,12 +1,57 @@
 /-
-Driver commands of property C15 (core Lean only).  Command names start with "c15.".
+Driver commands of property C15 (core Lean only); the case format is that of Hts/Drv/C04.lean.
+
+  c15.stats <kind> <cfg> <recs>          -> statistics text of the index built by Add
+  c15.rt    <kind> <cfg> <recs> <qs>     -> write, read, write again: digest, statistics, answers | nil | err | panic
+  c15.rd    <kind> <pool> <hex> <qs>     -> read the given bytes, write: digest, statistics, answers | nil | err | panic
 -/
-import Hts.Drv.Util
+import Hts.Drv.C04
 namespace Hts.Drv.C15
-open Hts.Drv
+open Hts.Drv Hts.Drv.C04 Hts.Model Hts.Model.Index Hts.Model.IndexIO
+
+def statsOne : Option Stats → String
+  | none => "-"
+  | some s => s!"{s.chunk.b}-{s.chunk.e},{s.mapped},{s.unmapped}"
+
+def unmText : Option Nat → String
+  | none => "u=-"
+  | some n => s!"u={n}"
+
+def statsText : St → String
+  | .bai i => ";".intercalate ([s!"n={i.refs.length}"] ++ i.refs.map (fun r => statsOne r.stats) ++ [unmText i.unmapped])
+  | .csi i => ";".intercalate ([s!"n={i.refs.length}"] ++ i.refs.map (fun r => statsOne r.stats) ++ [unmText i.unmapped])
+  | .tbx t _ => ";".intercalate ([s!"n={t.idx.refs.length}"] ++ t.idx.refs.map (fun r => statsOne r.stats) ++ [unmText t.idx.unmapped])
+
+def answers (st : St) (qs : List (Int × Int × Int)) : String :=
+  if qs.isEmpty then "-" else ";".intercalate (qs.map (answer st))
+
+def report (base : St) (bs : Bytes) (qs : List (Int × Int × Int)) : String :=
+  match rereadSt base bs with
+  | .error .err => "err"
+  | .error .panic => "panic"
+  | .ok none => "nil"
+  | .ok (some st2) => s!"{digest (writeSt st2)} {statsText st2} {answers st2 qs}"
 
 def handle (cmd : String) (args : List String) : Option String :=
   match cmd, args with
+  | "c15.stats", [kind, cfg, recs] => do
+    let (st, _) ← setup kind cfg recs
+    some (statsText st)
+  | "c15.rt", [kind, cfg, recs, qs] => do
+    let (st, _) ← setup kind cfg recs
+    let qs ← parseQueries qs
+    some (report st (writeSt st) qs)
+  | "c15.rd", [kind, pool, hex, qs] => do
+    let qs ← parseQueries qs
+    let bs ← parseHex hex
+    let base : St ← match kind with
+      | "bai" => some (.bai {})
+      | "csi" => some (.csi {})
+      | "tbx" => do
+        let ns ← if pool == "-" then some [] else (pool.splitOn "/").mapM parseHex
+        some (.tbx {} (ns.map toBytes))
+      | _ => none
+    some (report base (toBytes bs) qs)
   | _, _ => none
 
 end Hts.Drv.C15
